@@ -65,6 +65,10 @@ RT_FUNCS = {
     '_ZNSt6thread6_StateD2Ev': 'vf_std_thread_state_dtor',
     'getenv': 'vf_getenv', 'secure_getenv': 'vf_getenv',
 }
+# std::thread::_State_impl<...>::_M_run (libstdc++ entry of a thread body): only ever referenced from the state
+# object's vtable and never called in any engine (thread bodies are run by the harness / model threads), so the
+# vtable slot points to a runtime no-op instead of dragging the whole thread body into every unresolved virtual call
+THREAD_RUN_RE = re.compile(r'^_ZNSt6thread11_State_implI.*E6_M_runEv$')
 # primitives after which the calling thread may have been declared dead (stuck forever)
 BLOCKING = {'syscall', 'vf_block_until', 'vf_join', 'vf_futex_wait', 'pthread_mutex_lock',
             'vf_thread_exit'}
@@ -317,6 +321,8 @@ class Emitter:
     def fname(self, name):
         if name in RT_FUNCS:
             return RT_FUNCS[name]
+        if THREAD_RUN_RE.match(name):
+            return 'vf_std_thread_state_run'
         if name.startswith('vf_'):
             return name
         if name == 'main':
@@ -756,11 +762,16 @@ class Emitter:
                 sid = self.new_site(ins, 'load')
                 w('  VF_ATOMIC_BEGIN(%d); %s = *%s; VF_ATOMIC_LOAD(%d, %s, %s); VF_ATOMIC_END(%d);'
                   % (sid, r, p, sid, p, ORD[ins.order], sid))
+            elif self.guard_word(ins.ptr) is not None:
+                w('  %s = (uint8_t)(%s & 255u);' % (r, self.guard_word(ins.ptr)))
             else:
                 w('  %s = *%s;' % (r, p))
         elif op == 'store':
             p = self.val(ins.ptr)
-            if ins.atomic:
+            if not ins.atomic and self.guard_word(ins.ptr) is not None:
+                g = self.guard_word(ins.ptr)
+                w('  %s = (%s & ~(uint64_t)255u) | (uint64_t)(uint8_t)%s;' % (g, g, self.val(ins.v)))
+            elif ins.atomic:
                 sid = self.new_site(ins, 'store')
                 w('  VF_ATOMIC_BEGIN(%d); *%s = %s; VF_ATOMIC_STORE(%d, %s, %s); VF_ATOMIC_END(%d);'
                   % (sid, p, self.val(ins.v), sid, p, ORD[ins.order], sid))
@@ -1058,6 +1069,20 @@ class Emitter:
         except Exception:
             return None
 
+    def guard_word(self, ptr):
+        """opt-in (rt_defs VF_TYPED_SINGLETON): first-byte access to an i64 static-init guard variable
+        (_ZGV..., -fno-threadsafe-statics) is emitted as full-width arithmetic on the global, so that CBMC's
+        constant propagation sees `initialised` (byte_update on the word is not propagated)"""
+        if 'VF_TYPED_SINGLETON' not in (self.opts.get('rt_defs') or {}):
+            return None
+        if isinstance(ptr, ConstExpr) and ptr.op == 'bitcast' and isinstance(ptr.args[0], GlobalRef):
+            n = ptr.args[0].name
+            g = self.mod.globals.get(n)
+            if g is not None and n.startswith('_ZGV') and not g.tls and g.ty.kind == 'int' and g.ty.bits == 64 \
+                    and ptr.ty.kind == 'ptr' and ptr.ty.to.kind == 'int' and ptr.ty.to.bits == 8:
+                return self.gname(n)
+        return None
+
     def rt_arg(self, a, e):
         if a.ty.kind == 'ptr':
             return '(void*)' + e
@@ -1110,7 +1135,7 @@ class Emitter:
                 if k is None:
                     raise Unsupported('vf_spawn outside vf_main (seq mode)')
                 w('  __CPROVER_assert(!vf_spawned[%d], "rt: spawn site executed twice"); '
-                  'vf_thr_arg[%d] = (uint64_t)%s; vf_spawned[%d] = 1;' % (k, k, arg, k))
+                  'vf_thr_arg[%d] = (uint64_t)%s; vf_spawned[%d] = 1; VF_RACE_SPAWN(%d);' % (k, k, arg, k, k))
                 return True
             k = len(self.spawns) + 1
             self.spawns.append((k, base.name))
@@ -1248,7 +1273,7 @@ class Emitter:
                 if n in self.mod.aliases:
                     scan_val(self.mod.aliases[n])
                 elif n in self.mod.funcs:
-                    if n not in seen:
+                    if n not in seen and not THREAD_RUN_RE.match(n):
                         work.append(n)
                 elif n in self.mod.globals and n not in gseen:
                     gseen.add(n)
@@ -1288,6 +1313,12 @@ class Emitter:
 
     def emit_module(self, roots):
         mod = self.mod
+        # compiler-generated helpers that are *defined* in the IR but have a runtime model (the model wins)
+        for n in ('__clang_call_terminate',):
+            f0 = mod.funcs.get(n)
+            if f0 is not None and not f0.is_decl and n in RT_FUNCS:
+                f0.is_decl = True
+                f0.blocks = []
         self.compute_may_abort()
         funcs, globs = self.reachable(roots)
         ctors = []
@@ -1346,6 +1377,7 @@ class Emitter:
                 body.extend(self.emit_function(mod.funcs[n], root_k=k))
                 body.append('')
             body.append('void vf_first(void) { vf_tid = 0; vf_root_0(); }')
+            body.append('void vf_main_slot(void) { if (vf_slot_begin(0)) { vf_tid = 0; vf_root_0(); } }')
             body.append('void vf_round(void) {')
             for k, n in self.seq_roots:
                 body.append('  if (vf_slot_begin(%d)) { vf_tid = %d; vf_root_%d(); }' % (k, k, k))
@@ -1398,7 +1430,7 @@ class Emitter:
                          gdecl + protos + gl + [''] + body + ctor_fn) + '\n'
 
 
-HEADER_VF = {'vf_sched_point', 'vf_nondet_u8', 'vf_nondet_u16', 'vf_nondet_u32', 'vf_nondet_u64', 'vf_nondet_bool',
+HEADER_VF = {'vf_race_write', 'vf_race_read', 'vf_sched_point', 'vf_nondet_u8', 'vf_nondet_u16', 'vf_nondet_u32', 'vf_nondet_u64', 'vf_nondet_bool',
              'vf_atomic_begin', 'vf_atomic_end', 'vf_self', 'vf_join_all', 'vf_any_stuck', 'vf_is_dead',
              'vf_note', 'vf_throw', 'vf_check', 'vf_assume', 'vf_reach', 'vf_spawn', 'vf_main'}
 ORD = {'unordered': 'VF_RLX', 'monotonic': 'VF_RLX', 'acquire': 'VF_ACQ', 'release': 'VF_REL',
